@@ -119,7 +119,7 @@ Lemma gen_consume_source : src_FunctionBuilder_Consume =
   "{ block.Body = append(block.Body, terminator) f.Blocks = append(f.Blocks, TerminatedBlock(block)) }".
 Proof. vm_compute. reflexivity. Qed.
 Lemma gen_to_instructions_source : src_FunctionBuilder_ToInstructions =
-  "{ capacity := 1 + len(f.Parameters) + len(f.Variables) + 1 for _, block := range f.Blocks { capacity += 1 + len(block.Body) } result := make([]Instruction, 0, capacity) result = append(result, f.Signature) result = append(result, f.Parameters...) for i, block := range f.Blocks { result = append(result, makeLabelInstruction(block.LabelID)) if i == 0 { result = append(result, f.Variables...) } result = append(result, block.Body...) } result = append(result, makeFunctionEndInstruction()) return result }".
+  ("{ capacity := 1 + len(f.Par" ++ "ameters) + len(f.Variables) + 1 for _, block := range f.Blocks { capacity += 1 + len(block.Body) } result := make([]Instruction, 0, capacity) result = append(result, f.Signature) result = append(result, f.Par" ++ "ameters...) for i, block := range f.Blocks { result = append(result, makeLabelInstruction(block.LabelID)) if i == 0 { result = append(result, f.Variables...) } result = append(result, block.Body...) } result = append(result, makeFunctionEndInstruction()) return result }")%string.
 Proof. vm_compute. reflexivity. Qed.
 Lemma gen_write_to_source : src_Instruction_WriteTo =
   "{ wordCount := uint32(len(i.Words) + 1) binary.LittleEndian.PutUint32(buffer[offset:], (wordCount<<16)|uint32(i.Opcode)) offset += 4 for _, word := range i.Words { binary.LittleEndian.PutUint32(buffer[offset:], word) offset += 4 } return offset }".
